@@ -681,7 +681,15 @@ func runC31(c *Ctx) {
 		}
 		// PROXY header
 		nH := 0
-		for _, ci := range callsIn(dr, func(nm string, cc *ssa.CallCommon) bool { return strings.HasSuffix(nm, "protoutil.ProxyHeader") }) {
+		// dialRoute and the helpers its preamble was split into (sendPreamble(dst, …)), parameters bound
+		drParts, drRestore := boundParts(dr, 1)
+		callsInDR := func(m func(string, *ssa.CallCommon) bool) (out []ssa.CallInstruction) {
+			for _, part := range drParts {
+				out = append(out, callsIn(part, m)...)
+			}
+			return
+		}
+		for _, ci := range callsInDR(func(nm string, cc *ssa.CallCommon) bool { return strings.HasSuffix(nm, "protoutil.ProxyHeader") }) {
 			nH++
 			g, n := MustCross(ci, func(e Edge, cond ssa.Value, truth bool) bool {
 				return truth && strings.HasSuffix(PathOf(cond), ".ProxyProtocol")
@@ -693,17 +701,23 @@ func runC31(c *Ctx) {
 			}()
 			c.Check("proxy-header-gated", "ProxyHeader@dialRoute", ci, g && n > 0 && okArgs, "the PROXY header must only be sent when the route enables it, carrying the client's address")
 			// before the handshake
-			for _, w := range callsIn(dr, func(nm string, cc *ssa.CallCommon) bool { return strings.HasSuffix(nm, "lite.writePacket") }) {
-				c.Check("proxy-header-gated", "header-before-handshake@dialRoute", w, !flowsTo(w, ci), "the PROXY header must precede the handshake")
+			for _, w := range callsInDR(func(nm string, cc *ssa.CallCommon) bool { return strings.HasSuffix(nm, "lite.writePacket") }) {
+				c.Check("proxy-header-gated", "header-before-handshake@dialRoute", w, !flowsToIn(dr, w, ci), "the PROXY header must precede the handshake")
 			}
 		}
 		if nH == 0 {
 			c.Undecided("proxy-header-gated", "dialRoute", "no ProxyHeader call")
 		}
 		// the handshake written is the received context
-		for _, w := range callsIn(dr, func(nm string, cc *ssa.CallCommon) bool { return strings.HasSuffix(nm, "lite.writePacket") }) {
+		nW := 0
+		for _, w := range callsInDR(func(nm string, cc *ssa.CallCommon) bool { return strings.HasSuffix(nm, "lite.writePacket") }) {
+			nW++
 			c.Check("handshake-unchanged", "writePacket(handshakeCtx)@dialRoute", w, strip(w.Common().Args[1]) == ssa.Value(dr.Params[6]), "the packet written must be the received handshake context")
 		}
+		if nW == 0 {
+			c.Undecided("handshake-unchanged", "writePacket@dialRoute", "no handshake write found")
+		}
+		drRestore()
 	}
 	if fw != nil {
 		var flush, pp ssa.Instruction
@@ -739,6 +753,26 @@ func runC31(c *Ctx) {
 					return
 				}
 				if calleeName(cc) == "io.Copy" {
+					// a copy inside a local closure applied to its parameters (copyAll(to, from)): one copy
+					// per application, with the arguments of that application
+					pi, pj := -1, -1
+					for k, q := range cl.Params {
+						if stripNoSubst(cc.Args[0]) == ssa.Value(q) {
+							pi = k
+						}
+						if stripNoSubst(cc.Args[1]) == ssa.Value(q) {
+							pj = k
+						}
+					}
+					if sites := staticCallersOf(cl); cl != pf && pi >= 0 && pj >= 0 && len(sites) > 0 {
+						for _, cs := range sites {
+							a := cs.Common().Args
+							if pi < len(a) && pj < len(a) {
+								copies = append(copies, [2]string{PathOf(a[pi]), PathOf(a[pj])})
+							}
+						}
+						return
+					}
 					copies = append(copies, [2]string{PathOf(cc.Args[0]), PathOf(cc.Args[1])})
 					return
 				}
